@@ -374,7 +374,7 @@ def make_cases(ctx, rng, infos, tr):
     fam['split-column'] = C.split_cases(rng, 600 if th else 60)
     fam['refine-layers'] = C.layer_cases(rng, th)
     if th: counts = {'g7.dat': (150, 0, 6), 'g6.dat': (60, 0, 4), 'g5.dat': (60, 0, 4), 'g1.dat': (60, 20, 6), 'g3.dat': (40, 20, 4), 'g2.dat': (40, 0, 3), 'g4.dat': (40, 0, 3)}
-    else: counts = {'g7.dat': (12, 0, 2), 'g6.dat': (4, 0, 1), 'g5.dat': (4, 0, 1), 'g1.dat': (5, 3, 1), 'g3.dat': (3, 2, 1), 'g2.dat': (2, 0, 1), 'g4.dat': (2, 0, 0)}
+    else: counts = {'g7.dat': (12, 0, 2), 'g6.dat': (4, 0, 1), 'g5.dat': (4, 0, 1), 'g1.dat': (5, 3, 1), 'g3.dat': (3, 2, 1), 'g2.dat': (2, 0, 1), 'g4.dat': (2, 0, 1)}
     fam['shipped-geometries'] = shipped_cases(rng, infos, counts)
     return fam
 
@@ -474,6 +474,15 @@ def run(ctx):
             while time.time() - t0 < cap and not ctx.new_failures:
                 sweep(ctx, pool, 'deep-random', C.random_rect(r2, 200) + C.twice_refined(r2, 200) + C.decompose_cases(r2, 1), stats)
         ctx.extra['input_distribution'] = {k: dict(v) for k, v in stats.items()}
+        tot = stats['totals']
+        ctx.hyp_met['children_positive / refine_column_area: replaced parent strictly convex CCW with centre strictly inside'] = \
+            '%d of %d replaced columns in the oracle sweep (the others have collinear nodes: polygons handed to decompose_columns)' % (
+                tot.get('parents_convex_centre_inside', 0), tot.get('parents_convex_centre_inside', 0) + tot.get('parents_other', 0))
+        ctx.hyp_met['transition_type_total: refined side set non-empty, strictly increasing, below nn'] = \
+            '%d column cases of the refine correspondences (side sets recomputed independently from the selection)' % (
+                sum(v.get('cases', 0) for k, v in ctx.corr.items() if k.startswith('refine-children')))
+        ctx.hyp_met['column_volume_telescopes / refine_layers_volume: thicknesses positive'] = \
+            '%d column-volume cases compared with the model' % ctx.corr.get('block_volume-vs-model', {}).get('cases', 0)
         status = ctx.finish(deep_search=deep)
     return status
 
